@@ -2,22 +2,23 @@
 # usage: tools_verify_mut.sh <tag> <demo-test-name> <features>
 # Confirms a seeded change in its scratch worktree /tmp/mut/<tag>: patch applies on a clean checkout, the workspace test-suite passes with it,
 # the demonstration fails with it and passes without it. Writes /tmp/mut/out/<tag>/verify.txt
-tag=$1; demo=$2; feat=${3:-all_models}
+tag=$1; demo=$2; feat=${3:-all_models}; ddir=${4:-tests}; pkg=${5:-}
+if [ "$feat" = "-" ]; then fflag=""; else fflag="--features \"$feat\""; fi
 wt=/tmp/mut/${WT:-$tag}; out=/tmp/mut/out/$tag
 cd $wt || exit 2
-git checkout -- . ; rm -f tests/${demo}.rs
+git checkout -- . ; rm -f $ddir/${demo}.rs
 git apply --check $out/patch.diff || { echo "PATCH DOES NOT APPLY" | tee $out/verify.txt; exit 1; }
 git apply $out/patch.diff
 {
 echo "== suite with change"
 CARGO_BUILD_JOBS=6 cargo test --workspace --no-fail-fast --offline 2>&1 | grep -E "^test result|FAILED|failed|error(\[|:)" 
 echo "suite_exit=${PIPESTATUS[0]}"
-cp $out/demo.rs tests/${demo}.rs
+cp $out/demo.rs $ddir/${demo}.rs
 echo "== demo with change"
-CARGO_BUILD_JOBS=6 cargo test --offline --features $feat --test $demo 2>&1 | grep -E "^test |^test result|error(\[|:)"
+eval CARGO_BUILD_JOBS=6 cargo test --offline $pkg $fflag --test $demo 2>&1 | grep -E "^test |^test result|error(\[|:)"
 git checkout -- .
 echo "== demo without change"
-CARGO_BUILD_JOBS=6 cargo test --offline --features $feat --test $demo 2>&1 | grep -E "^test |^test result|error(\[|:)"
-rm -f tests/${demo}.rs
+eval CARGO_BUILD_JOBS=6 cargo test --offline $pkg $fflag --test $demo 2>&1 | grep -E "^test |^test result|error(\[|:)"
+rm -f $ddir/${demo}.rs
 } > $out/verify.txt 2>&1
 cat $out/verify.txt
